@@ -4,6 +4,13 @@
 //! exits with a chosen code, so the harness knows every byte written per stream. After every
 //! successful write(2) it records the cumulative per-stream byte counts in a progress file, which
 //! gives a lower bound on what was written when the child is killed by a cancellation.
+//!
+//! Pipe lifetime ≠ process lifetime: a spec may carry `tails` — descendants (`rv emit <tail spec>`)
+//! that the child starts after its own writes and does not wait for. A tail inherits stdout and/or
+//! stderr (so the pipe stays open after the direct child is gone), waits `pre_ms`, writes its own
+//! payload, may linger, may sit in its own session (escapes a process-group kill). The pseudo fds 11
+//! and 12 in `ops` give up fd 1 / fd 2 (re-pointed at /dev/null) while the process keeps running.
+//! Every process appends what it did and when (unix ms) to its own journal file (`journal`).
 
 use crate::prng::Rng;
 use serde_json::{json, Value};
@@ -31,6 +38,32 @@ pub fn emit_main(args: &[String]) -> i32 {
         }
         None => -1,
     };
+    let journal_fd: i32 = match spec["journal"].as_str() {
+        Some(p) => {
+            let Ok(c) = std::ffi::CString::new(p) else {
+                return 97;
+            };
+            unsafe { libc::open(c.as_ptr(), libc::O_WRONLY | libc::O_CREAT | libc::O_APPEND | libc::O_CLOEXEC, 0o600) }
+        }
+        None => -1,
+    };
+    let journal = |kind: u64, a: u64, b: u64| {
+        if journal_fd >= 0 {
+            let mut rec = [0u8; 32];
+            rec[..8].copy_from_slice(&kind.to_le_bytes());
+            rec[8..16].copy_from_slice(&unix_ms().to_le_bytes());
+            rec[16..24].copy_from_slice(&a.to_le_bytes());
+            rec[24..].copy_from_slice(&b.to_le_bytes());
+            unsafe {
+                libc::write(journal_fd, rec.as_ptr() as *const libc::c_void, 32);
+            }
+        }
+    };
+    journal(J_START, std::process::id() as u64, 0);
+    let pre_ms = spec["pre_ms"].as_u64().unwrap_or(0);
+    if pre_ms > 0 {
+        std::thread::sleep(std::time::Duration::from_millis(pre_ms));
+    }
     let mut pos = [0usize; 2];
     let record = |pos: &[usize; 2]| {
         if progress_fd >= 0 {
@@ -51,6 +84,18 @@ pub fn emit_main(args: &[String]) -> i32 {
             if pause_us > 0 {
                 std::thread::sleep(std::time::Duration::from_micros(pause_us));
             }
+            if fd == 11 || fd == 12 {
+                // give up the pipe, keep running
+                unsafe {
+                    let null = libc::open(b"/dev/null\0".as_ptr() as *const libc::c_char, libc::O_WRONLY);
+                    if null >= 0 {
+                        libc::dup2(null, fd - 10);
+                        libc::close(null);
+                    }
+                }
+                journal(J_CLOSED, (fd - 10) as u64, 0);
+                continue;
+            }
             let (data, k) = if fd == 2 { (&err, 1usize) } else { (&out, 0usize) };
             let end = (pos[k] + n).min(data.len());
             while pos[k] < end {
@@ -65,6 +110,32 @@ pub fn emit_main(args: &[String]) -> i32 {
                 }
                 pos[k] += r as usize;
                 record(&pos);
+                journal(J_WROTE, pos[0] as u64, pos[1] as u64);
+            }
+        }
+    }
+    // descendants: started after the own writes (so per stream the order of bytes is causal), never waited for
+    if let Some(tails) = spec["tails"].as_array() {
+        use std::os::unix::process::CommandExt;
+        use std::process::{Command, Stdio};
+        let exe = std::env::current_exe().unwrap_or_else(|_| "rv".into());
+        for (i, t) in tails.iter().enumerate() {
+            let mut cmd = Command::new(&exe);
+            cmd.arg("emit").arg(t["spec"].as_str().unwrap_or(""));
+            cmd.stdin(Stdio::null());
+            cmd.stdout(if t["keep_out"].as_bool().unwrap_or(true) { Stdio::inherit() } else { Stdio::null() });
+            cmd.stderr(if t["keep_err"].as_bool().unwrap_or(true) { Stdio::inherit() } else { Stdio::null() });
+            if t["setsid"].as_bool().unwrap_or(false) {
+                unsafe {
+                    cmd.pre_exec(|| {
+                        libc::setsid();
+                        Ok(())
+                    });
+                }
+            }
+            match cmd.spawn() {
+                Ok(child) => journal(J_SPAWNED, child.id() as u64, i as u64),
+                Err(_) => journal(J_SPAWN_FAILED, 0, i as u64),
             }
         }
     }
@@ -72,7 +143,22 @@ pub fn emit_main(args: &[String]) -> i32 {
     if linger > 0 {
         std::thread::sleep(std::time::Duration::from_millis(linger));
     }
+    journal(J_EXIT, pos[0] as u64, pos[1] as u64);
     spec["exit"].as_i64().unwrap_or(0) as i32
+}
+
+pub const J_START: u64 = 0;
+pub const J_WROTE: u64 = 1;
+pub const J_CLOSED: u64 = 2;
+pub const J_EXIT: u64 = 3;
+pub const J_SPAWNED: u64 = 4;
+pub const J_SPAWN_FAILED: u64 = 5;
+
+pub fn unix_ms() -> u64 {
+    std::time::SystemTime::now()
+        .duration_since(std::time::UNIX_EPOCH)
+        .map(|d| d.as_millis() as u64)
+        .unwrap_or(0)
 }
 
 #[derive(Clone, Copy, Debug, PartialEq, Eq)]
@@ -341,12 +427,326 @@ impl Plan {
         )
     }
 
+    /// Like `command`, with descendants: writes the tail specs next to the child's spec and makes
+    /// every process journal into `<name>[.t<i>].journal`.
+    pub fn command_with_tails(&self, dir: &Path, name: &str, progress: bool, tails: &[Tail]) -> (String, Option<std::path::PathBuf>, Journals) {
+        let spec_path = dir.join(format!("{name}.spec.json"));
+        let prog_path = dir.join(format!("{name}.progress"));
+        let journals = Journals {
+            child: dir.join(format!("{name}.journal")),
+            tails: (0..tails.len()).map(|i| dir.join(format!("{name}.t{i}.journal"))).collect(),
+        };
+        let mut tail_refs = Vec::new();
+        for (i, t) in tails.iter().enumerate() {
+            let tp = dir.join(format!("{name}.t{i}.spec.json"));
+            let mut ts = t.plan.spec(None);
+            ts["pre_ms"] = json!(t.delay_ms);
+            ts["journal"] = json!(journals.tails[i].to_string_lossy());
+            let _ = std::fs::write(&tp, serde_json::to_vec(&ts).unwrap_or_default());
+            tail_refs.push(json!({"spec": tp.to_string_lossy(), "keep_out": t.keep_out, "keep_err": t.keep_err, "setsid": t.setsid}));
+        }
+        let mut spec = self.spec(if progress { Some(&prog_path) } else { None });
+        spec["journal"] = json!(journals.child.to_string_lossy());
+        spec["tails"] = json!(tail_refs);
+        let _ = std::fs::write(&spec_path, serde_json::to_vec(&spec).unwrap_or_default());
+        let exe = std::env::current_exe().unwrap_or_else(|_| "rv".into());
+        (
+            format!("{} emit {}", sh_quote(&exe.to_string_lossy()), sh_quote(&spec_path.to_string_lossy())),
+            if progress { Some(prog_path) } else { None },
+            journals,
+        )
+    }
+
     pub fn stream(&self, s: &str) -> &[u8] {
         if s == "stderr" {
             &self.err
         } else {
             &self.out
         }
+    }
+}
+
+/// A descendant of the emit child that outlives it on the pipes.
+#[derive(Clone, Debug)]
+pub struct Tail {
+    /// pause before the tail's first op, counted from its own start (= the child's last write)
+    pub delay_ms: u64,
+    pub keep_out: bool,
+    pub keep_err: bool,
+    /// own session: a kill of the task's process group misses it
+    pub setsid: bool,
+    /// payloads, ops (may contain 11/12), linger after the ops
+    pub plan: Plan,
+}
+
+impl Tail {
+    pub fn holder(delay_ms: u64, keep_out: bool, keep_err: bool) -> Tail {
+        Tail {
+            delay_ms,
+            keep_out,
+            keep_err,
+            setsid: false,
+            plan: Plan { out: Vec::new(), err: Vec::new(), ops: Vec::new(), exit: 0, linger_ms: 0, shape: "holder".into() },
+        }
+    }
+    /// One write of `out` to stdout and/or `err` to stderr after the delay.
+    pub fn writer(delay_ms: u64, out: Vec<u8>, err: Vec<u8>) -> Tail {
+        let mut ops = Vec::new();
+        if !out.is_empty() {
+            ops.push((1u8, out.len(), 0u64));
+        }
+        if !err.is_empty() {
+            ops.push((2u8, err.len(), 0u64));
+        }
+        Tail {
+            delay_ms,
+            keep_out: true,
+            keep_err: true,
+            setsid: false,
+            plan: Plan { out, err, ops, exit: 0, linger_ms: 0, shape: "writer".into() },
+        }
+    }
+    pub fn describe(&self) -> Value {
+        json!({
+            "delay_ms": self.delay_ms, "holds_stdout": self.keep_out, "holds_stderr": self.keep_err,
+            "own_session": self.setsid, "writes_stdout": self.plan.out.len(), "writes_stderr": self.plan.err.len(),
+            "writes": self.plan.ops.len(), "linger_ms": self.plan.linger_ms,
+        })
+    }
+    /// How long after its start the tail is gone at the latest (without scheduling noise).
+    pub fn life_ms(&self) -> u64 {
+        self.delay_ms + self.plan.linger_ms + self.plan.ops.iter().map(|o| o.2).sum::<u64>() / 1000
+    }
+}
+
+/// Shape tag of a tail set (for distinct counting): bucketed delays, what is held, what is written.
+pub fn tails_shape(tails: &[Tail]) -> String {
+    if tails.is_empty() {
+        return "notail".into();
+    }
+    tails
+        .iter()
+        .map(|t| {
+            format!(
+                "d{}{}{}{}w{}{}",
+                match t.delay_ms {
+                    0..=49 => "0",
+                    50..=399 => "s",
+                    400..=999 => "m",
+                    1000..=1999 => "l",
+                    _ => "xl",
+                },
+                if t.keep_out { "O" } else { "" },
+                if t.keep_err { "E" } else { "" },
+                if t.setsid { "S" } else { "" },
+                if t.plan.out.is_empty() { "" } else { "o" },
+                if t.plan.err.is_empty() { "" } else { "e" },
+            )
+        })
+        .collect::<Vec<_>>()
+        .join("+")
+}
+
+/// Seeded descendants for a random case: mostly short delays (the slow ones are directed cases).
+pub fn gen_tails(rng: &mut Rng) -> Vec<Tail> {
+    let n = 1 + rng.usize(2);
+    let mut tails = Vec::new();
+    // per stream at most one descendant writes, so that the order of bytes per stream is known
+    let (mut out_taken, mut err_taken) = (false, false);
+    for _ in 0..n {
+        let delay_ms = match rng.below(20) {
+            0..=13 => 20 + rng.below(230),
+            14..=18 => 250 + rng.below(650),
+            _ => 1100 + rng.below(300),
+        };
+        let (keep_out, keep_err) = *rng.pick(&[(true, true), (true, true), (true, false), (false, true)]);
+        let w_out = keep_out && !out_taken && rng.chance(2, 3);
+        let w_err = keep_err && !err_taken && rng.chance(1, 2);
+        out_taken |= w_out;
+        err_taken |= w_err;
+        let size = |rng: &mut Rng| *rng.pick(&[1usize, 5, 100, 4096, 8192, 8193, 20000]);
+        let payload = |rng: &mut Rng, on: bool| -> Vec<u8> {
+            if !on {
+                return Vec::new();
+            }
+            let n = size(rng);
+            let c = Content::pick(rng);
+            let c = if c == Content::Empty { Content::Ascii } else { c };
+            gen_payload(rng, c, n)
+        };
+        let out = payload(rng, w_out);
+        let err = payload(rng, w_err);
+        let mut plan = plan_from(rng, out, err, 20, "tail");
+        plan.exit = 0;
+        // sometimes give a pipe up after the writes and stay around a little, or just stay around
+        match rng.below(4) {
+            0 => plan.linger_ms = rng.below(150),
+            1 => {
+                plan.ops.push((if rng.bool() { 11 } else { 12 }, 0, 0));
+                plan.linger_ms = rng.below(150);
+            }
+            _ => {}
+        }
+        tails.push(Tail { delay_ms, keep_out, keep_err, setsid: rng.chance(1, 4), plan });
+    }
+    tails
+}
+
+/// Where the processes of one case journal what they did.
+#[derive(Clone, Debug)]
+pub struct Journals {
+    pub child: std::path::PathBuf,
+    pub tails: Vec<std::path::PathBuf>,
+}
+
+#[derive(Clone, Copy, Debug)]
+pub struct Rec {
+    pub kind: u64,
+    pub t_ms: u64,
+    pub a: u64,
+    pub b: u64,
+}
+
+pub fn read_journal(path: &Path) -> Vec<Rec> {
+    let b = std::fs::read(path).unwrap_or_default();
+    b.chunks_exact(32)
+        .map(|c| {
+            let f = |i: usize| u64::from_le_bytes(c[i * 8..i * 8 + 8].try_into().unwrap_or([0; 8]));
+            Rec { kind: f(0), t_ms: f(1), a: f(2), b: f(3) }
+        })
+        .collect()
+}
+
+/// /proc says the process is gone (or a zombie: its descriptors are closed).
+pub fn pid_gone(pid: u64) -> bool {
+    match std::fs::read_to_string(format!("/proc/{pid}/stat")) {
+        Err(_) => true,
+        Ok(s) => match s.rfind(')') {
+            Some(i) => matches!(s[i + 1..].trim_start().chars().next(), Some('Z') | Some('X') | None),
+            None => false,
+        },
+    }
+}
+
+/// What the journals say about the processes of a case.
+pub struct Lives {
+    pub child_started: bool,
+    pub child_over: bool,
+    pub tails_spawned: usize,
+    /// every process that was started has exited (marker) or is gone (/proc)
+    pub all_over: bool,
+    pub tails_killed: usize,
+}
+
+impl Journals {
+    pub fn lives(&self) -> Lives {
+        let cj = read_journal(&self.child);
+        let child_pid = cj.iter().find(|r| r.kind == J_START).map(|r| r.a);
+        let child_over = cj.iter().any(|r| r.kind == J_EXIT) || child_pid.map(pid_gone).unwrap_or(false);
+        let spawned: Vec<(u64, usize)> = cj.iter().filter(|r| r.kind == J_SPAWNED).map(|r| (r.a, r.b as usize)).collect();
+        let mut all_over = child_pid.is_some() && child_over;
+        let mut killed = 0;
+        for (pid, i) in &spawned {
+            let exited = self.tails.get(*i).map(|p| read_journal(p).iter().any(|r| r.kind == J_EXIT)).unwrap_or(false);
+            if !exited {
+                if pid_gone(*pid) {
+                    killed += 1;
+                } else {
+                    all_over = false;
+                }
+            }
+        }
+        Lives { child_started: child_pid.is_some(), child_over, tails_spawned: spawned.len(), all_over, tails_killed: killed }
+    }
+}
+
+/// After the run's terminal frame: wait until every process of the case is over (exit marker in its
+/// journal, or gone according to /proc), at most `max`. A child that never journalled its start was
+/// never run (the shell has been reaped by then).
+pub async fn wait_all_over(j: &Journals, max: std::time::Duration) -> Lives {
+    let t = std::time::Instant::now();
+    loop {
+        let mut l = j.lives();
+        if !l.child_started {
+            l.all_over = true;
+        }
+        if l.all_over || t.elapsed() >= max {
+            return l;
+        }
+        tokio::time::sleep(std::time::Duration::from_millis(10)).await;
+    }
+}
+
+/// Ground truth of one case with descendants: per stream the child's bytes followed by the bytes of
+/// the (at most one) tail that writes to that stream, and — from the journals — how much of that had
+/// been written by when.
+pub struct TailTruth {
+    /// [stdout, stderr]
+    pub full: [Vec<u8>; 2],
+    /// per stream: (unix ms at which a write had returned, cumulative bytes of `full` written by then, process)
+    pub marks: [Vec<(u64, u64, usize)>; 2],
+    /// per stream: every process that writes to it has journalled its exit
+    pub complete: [bool; 2],
+}
+
+impl TailTruth {
+    pub fn build(plan: &Plan, tails: &[Tail], j: Option<&Journals>) -> TailTruth {
+        let mut full = [plan.out.clone(), plan.err.clone()];
+        let mut marks: [Vec<(u64, u64, usize)>; 2] = [Vec::new(), Vec::new()];
+        let mut complete = [true, true];
+        let cj = j.map(|j| read_journal(&j.child)).unwrap_or_default();
+        let child_exited = cj.iter().any(|r| r.kind == J_EXIT);
+        for k in 0..2 {
+            for r in cj.iter().filter(|r| r.kind == J_WROTE || r.kind == J_EXIT) {
+                marks[k].push((r.t_ms, if k == 0 { r.a } else { r.b }, 0));
+            }
+            if !child_exited && !full[k].is_empty() {
+                complete[k] = false;
+            }
+        }
+        for (i, t) in tails.iter().enumerate() {
+            let tj = j.and_then(|j| j.tails.get(i)).map(|p| read_journal(p)).unwrap_or_default();
+            let exited = tj.iter().any(|r| r.kind == J_EXIT);
+            for k in 0..2 {
+                let data = if k == 0 { &t.plan.out } else { &t.plan.err };
+                let keeps = if k == 0 { t.keep_out } else { t.keep_err };
+                if data.is_empty() || !keeps {
+                    continue;
+                }
+                let base = if k == 0 { plan.out.len() } else { plan.err.len() } as u64;
+                full[k].extend_from_slice(data);
+                for r in tj.iter().filter(|r| r.kind == J_WROTE || r.kind == J_EXIT) {
+                    marks[k].push((r.t_ms, base + if k == 0 { r.a } else { r.b }, i + 1));
+                }
+                if !exited {
+                    complete[k] = false;
+                }
+            }
+        }
+        TailTruth { full, marks, complete }
+    }
+
+    /// Bounds on the number of bytes of stream `k` that were in the pipe when a frame stamped
+    /// `t_ms` was made: at least what had been written `slack` earlier, at most what writes that
+    /// may have begun up to `slack` later carried.
+    pub fn bounds(&self, k: usize, t_ms: u64, slack_ms: u64) -> (u64, u64) {
+        let lo = self.marks[k].iter().filter(|(t, _, _)| t + slack_ms <= t_ms).map(|(_, n, _)| *n).max().unwrap_or(0);
+        let hi = if self.complete[k] {
+            // everything journalled up to the cut-off, plus per process the first write that returned after it
+            let cut = t_ms + slack_ms;
+            let mut hi = self.marks[k].iter().filter(|(t, _, _)| *t <= cut).map(|(_, n, _)| *n).max().unwrap_or(0);
+            let mut seen: Vec<usize> = Vec::new();
+            for (t, n, p) in &self.marks[k] {
+                if *t > cut && !seen.contains(p) {
+                    seen.push(*p);
+                    hi = hi.max(*n);
+                }
+            }
+            hi
+        } else {
+            self.full[k].len() as u64
+        };
+        (lo, hi.max(lo))
     }
 }
 
